@@ -104,6 +104,15 @@ def make_items(tier, seed, shard, nshards):
             for k in reversed(kids):
                 t4.append(k)
             items.append(("tree", C.__name__ + "/reversed", ET.tostring(t4)))
+        if len(tree):
+            # the same tree as a stock XML parser delivers it from an indented file: whitespace text on the aggregates,
+            # whitespace tails everywhere (whatever the conversion makes of it, it must not rewrite what it was given)
+            t6 = copy.deepcopy(tree)
+            for node in t6.iter():
+                if len(node):
+                    node.text = "\n    "
+                node.tail = "\n  "
+            items.append(("tree", C.__name__ + "/whitespace-from-a-stock-parser", ET.tostring(t6)))
         if C.__name__ in ("MFINFO", "STOCKINFO", "MAIL"):
             # the keyword tags as they appear on the wire (groom renames them), plus a vendor extension
             t5 = copy.deepcopy(tree)
